@@ -33,7 +33,7 @@ def run(pid, tier, ev=None, vd=None, finish=True):
     work = vlib.shm_dir(pid.lower() + "hub")
     rng = random.Random(vlib.seed())
     try:
-        for prog in MODEL_PROGS:
+        for prog in MODEL_PROGS + ["casrace3"]:
             r = tlc("MC_Hub", f"MC_Hub_{prog}.cfg", workers=4, timeout=900, want_payload=False)
             ev.tlc(r)
             if r.violation:
@@ -46,11 +46,11 @@ def run(pid, tier, ev=None, vd=None, finish=True):
         hashes = hr.compute_hashes(bins["vh_lib"], work)
         jobs = []
         per_prog = 120 if tier == "quick" else 100000
-        for prog in MODEL_PROGS:
-            r = tlc("HubSched", f"MC_HubSched_{prog}.cfg", workers=8, timeout=1500, xmx="8g")
+        for prog in MODEL_PROGS + (["casrace3"] if tier == "thorough" else []):       # three servers: 284 342 behaviours, thorough only
+            r = tlc("HubSched", f"MC_HubSched_{prog}.cfg", workers=8, timeout=3000, xmx="12g")
             scheds = r.payloads.get("SCHED", [])
             rng.shuffle(scheds)
-            for sc in scheds[:per_prog]:
+            for sc in scheds[:(per_prog if prog != "casrace3" else 4000)]:
                 jobs.append({"prog": prog, "program": hr.PROGRAMS[prog], "order": [x[0] for x in sc["hist"]],
                              "want_final": sc["final"], "src": "tlc"})
             log(f"[{pid}] program {prog}: {len(scheds)} model behaviours, {min(len(scheds), per_prog)} replayed")
@@ -66,7 +66,7 @@ def run(pid, tier, ev=None, vd=None, finish=True):
             jobs.append({"prog": "putput", "program": hr.PROGRAMS["putput"], "order": [x[0] for x in hist if x[1] != "kill"],
                          "kill": (victim, steps_before), "src": "tlc-kill"})
         # the controller's own search
-        nrand = 25 if tier == "quick" else 400
+        nrand = 25 if tier == "quick" else 1500
         for prog, program in list(hr.EXTRA.items()) + list(hr.PROGRAMS.items()):
             for k in range(nrand):
                 job = {"prog": prog, "program": program, "policy": "random", "seed": vlib.seed() * 1000 + k, "src": "search"}
@@ -88,7 +88,7 @@ def run(pid, tier, ev=None, vd=None, finish=True):
         # the lock itself as the suspect: every multi-commit program under the lock-stress policy
         for prog, program in [("casrace3", hr.CASRACE3), ("three", hr.EXTRA["three"]), ("deldel", hr.EXTRA["deldel"]), ("putput", hr.PROGRAMS["putput"]),
                               ("create", hr.PROGRAMS["create"]), ("putdel", hr.PROGRAMS["putdel"])]:
-            for k in range(12 if tier == "quick" else 200):
+            for k in range(12 if tier == "quick" else 800):
                 jobs.append({"prog": prog, "program": program, "policy": "lock_stress", "seed": vlib.seed() * 313 + k, "src": "search"})
         # adversarial corpus (counterexamples of weakened model variants, kept as regressions)
         jobs.append({"prog": "list_race", "program": hr.LIST_RACE, "policy": "list_race", "init": {"f": "c1", "g": "c1"}, "src": "corpus"})
